@@ -112,15 +112,16 @@ def build_repo(repo=None):
                 # prune old cache entries (keep the 3 most recent)
                 ents = sorted((e for e in os.listdir(CACHE) if os.path.isdir(os.path.join(CACHE, e))),
                               key=lambda e: os.path.getmtime(os.path.join(CACHE, e)))
-                for e in ents[:-3]:
+                for e in ents[:-8]:
                     shutil.rmtree(os.path.join(CACHE, e), ignore_errors=True)
             finally:
                 shutil.rmtree(bdir, ignore_errors=True)
+        run = scratch("ev_repo_")
+        subprocess.run(["rsync", "-a", "--exclude", "OK", cdir + "/", run + "/"], check=True)
+        os.utime(cdir)
         fcntl.flock(lk, fcntl.LOCK_UN)
-    run = scratch("ev_repo_")
     subprocess.run(["rsync", "-a", "--exclude", ".git", "--exclude", "docs", "--exclude", "*.so",
                     repo + "/", run + "/"], check=True)
-    subprocess.run(["rsync", "-a", "--exclude", "OK", cdir + "/", run + "/"], check=True)
     return run
 
 
